@@ -17,6 +17,9 @@ import (
 	"fmt"
 	"math/rand"
 	"os"
+	"os/exec"
+	"strconv"
+	"strings"
 	"sync"
 	"time"
 
@@ -677,5 +680,123 @@ func runKeys(in string, w *trace.Writer, seed int64, variants int) string {
 			nev++
 		}
 	}
+	h.shiftPairs(seed)
 	return fmt.Sprintf("cases=%d events=%d fp_events=%d accepted_wires=%d wall=%.1fs", n, nev, h.nfp, h.nwires, time.Since(t0).Seconds())
+}
+
+// fpFresh fingerprints one key in a FRESH process (no history): "a function of the key alone" means that what
+// this process computed earlier cannot matter. Returns false when the helper process could not be run.
+func fpFresh(k *x509.PublicKey) (kid, qid p2p.PeerID, ok bool) {
+	exe, err := os.Executable()
+	if err != nil {
+		return kid, qid, false
+	}
+	arcs, _ := json.Marshal(oidArcs(k.Algorithm.String()))
+	out, err := exec.Command(exe, "-mode", "fpone", "-in", string(arcs)+":"+hex.EncodeToString(k.Data), "-out", os.DevNull).Output()
+	if err != nil {
+		return kid, qid, false
+	}
+	f := strings.Fields(string(out))
+	if len(f) != 2 {
+		return kid, qid, false
+	}
+	a, err1 := hex.DecodeString(f[0])
+	b, err2 := hex.DecodeString(f[1])
+	if err1 != nil || err2 != nil || len(a) != len(kid) || len(b) != len(qid) {
+		return kid, qid, false
+	}
+	copy(kid[:], a)
+	copy(qid[:], b)
+	return kid, qid, true
+}
+
+func oidArcs(dotted string) []int {
+	var arcs []int
+	for _, p := range strings.Split(dotted, ".") {
+		n, _ := strconv.Atoi(p)
+		arcs = append(arcs, n)
+	}
+	return arcs
+}
+
+// runFpOne is the helper process of fpFresh: spec "<json arcs>:<hex body>", prints both default fingerprints.
+func runFpOne(spec string) string {
+	i := strings.LastIndex(spec, ":")
+	var arcs []int
+	if i < 0 || json.Unmarshal([]byte(spec[:i]), &arcs) != nil {
+		fatal("bad -in for fpone")
+	}
+	body, err := hex.DecodeString(spec[i+1:])
+	if err != nil {
+		fatal(err)
+	}
+	k := x509.PublicKey{Algorithm: oids.New(arcs...), Data: body}
+	a, b := p2pkeswarm.DefaultFingerprinter(&k), quicswarm.DefaultFingerprinter(k)
+	return hex.EncodeToString(a[:]) + " " + hex.EncodeToString(b[:])
+}
+
+// shiftPairs: pairs of DIFFERENT keys whose split into (algorithm, body) moves by a few bytes while a naive
+// joining of the two parts (dotted text ++ body, DER content ++ body) stays the same, fingerprinted one after the
+// other in this process - and each of them again in a fresh process. The identity of a key must not depend on
+// which other keys a process has seen (FingerprintIsFunctionOfKey compares the events of one key and kind).
+func (h *keysRun) shiftPairs(seed int64) {
+	r := rand.New(rand.NewSource(seed*7919 + 17))
+	bases := [][]int{{1, 3, 101, 112}, {1, 3, 101, 110}, {1, 2, 840, 113549, 1, 1, 1}, {2, 5, 4, 3}, {1, 3, 6, 1, 4, 1, 11591, 15, 1}}
+	emit := func(k *x509.PublicKey, first string) {
+		fk, fq := p2pkeswarm.DefaultFingerprinter(k), quicswarm.DefaultFingerprinter(*k)
+		gk, gq, ok := fpFresh(k)
+		site := "DefaultFingerprinter(k), " + first + " of a pair of keys whose algorithm/body boundary is shifted"
+		h.w.Emit(FpEvent{Ev: "fp", Kind: "p2pkeswarm", Key: keyID(k), Site: site, ID: idInts(fk)})
+		if ok {
+			h.w.Emit(FpEvent{Ev: "fp", Kind: "p2pkeswarm", Key: keyID(k), Site: site + " [fresh process]", ID: idInts(gk)})
+		}
+		h.w.Emit(FpEvent{Ev: "fp", Kind: "quicswarm", Key: keyID(k), Site: site, ID: idInts(fq)})
+		if ok {
+			h.w.Emit(FpEvent{Ev: "fp", Kind: "quicswarm", Key: keyID(k), Site: site + " [fresh process]", ID: idInts(gq)})
+		}
+		h.nfp += 4
+	}
+	for bi, arcs := range bases {
+		for _, dl := range []int{0, 1, 32} {
+			for order := 0; order < 2; order++ {
+				for shift := 0; shift < 2; shift++ {
+					d := make([]byte, dl)
+					r.Read(d)
+					d = append(d, byte(bi), byte(dl), byte(order), byte(shift)) // every pair has its own keys
+					short, last := arcs[:len(arcs)-1], arcs[len(arcs)-1]
+					var moved []byte
+					if shift == 0 {
+						moved = []byte("." + strconv.Itoa(last)) // dotted text of the last arc
+					} else {
+						moved = derArc(last) // DER content bytes of the last arc
+					}
+					k1 := x509.PublicKey{Algorithm: oids.New(short...), Data: append(append([]byte{}, moved...), d...)}
+					k2 := x509.PublicKey{Algorithm: oids.New(arcs...), Data: d}
+					if order == 0 {
+						emit(&k1, "first")
+						emit(&k2, "second")
+					} else {
+						emit(&k2, "first")
+						emit(&k1, "second")
+					}
+				}
+			}
+		}
+	}
+}
+
+// derArc is the base-128 encoding of one OID arc (not the first two).
+func derArc(n int) []byte {
+	var out []byte
+	for {
+		out = append([]byte{byte(n & 0x7f)}, out...)
+		n >>= 7
+		if n == 0 {
+			break
+		}
+	}
+	for i := 0; i < len(out)-1; i++ {
+		out[i] |= 0x80
+	}
+	return out
 }
